@@ -13,6 +13,17 @@ NOTE = ("Trusted base: clang 14 front end + CFG builder on the flags of the comp
 
 CLAIMS = {
     # pid: (technique, level text, design_ref)
+    "C02": ("must-pass-through on the tokenizer loop and parse_next (every parsed chunk added, failure exits, discarded-character census); single-emit/every-emit path analysis of output_text's chunk loop; fusion guard (who-may-call + exact guards of the PCF_FORCE_SPACE setters); dominance of the column advance; guard analysis of the newline makers; shared effect census with liveness under the default configuration",
+            "The tokenizer is shown to add every parsed non-whitespace chunk and to drop input characters only in the whitespace "
+            "consumers; output_text to write each chunk's text exactly once per forward-only iteration; do_space to be reachable only "
+            "through the fusion guard, whose two setters sit under exactly the word/word and punctuator-relex tests; chunks never to be "
+            "written left of the output column; newlines made inside directives to carry a backslash; and no chunk-editing site to be "
+            "live with the code-modifying option families at their defaults. These are for-all-inputs statements about loss, "
+            "duplication, reordering and fusion. The numeric parts (columns, punctuator table contents, the Len()<4 heuristic) are not decided.", "DESIGN.md section 4 C02"),
+    "C03": ("table agreement between the tokenizer's literal types and output_text's is_literal test, exhaustiveness of the comment-type dispatch, shared effect census, who-may-call for the character writers",
+            "Every type a string parser can assign is written with is_literal=true; every CT_COMMENT* value any SetType can produce has "
+            "a comment-writer arm; with the comment/string options at default no text-rewriting site is reachable; all characters "
+            "pass add_char/add_text. The re-flow and re-indent arithmetic inside the comment writers is not decided.", "DESIGN.md section 4 C03"),
     "C04": ("effect analysis: census of every token-visible effect site (chunk text mutation, chunk creation, deletion, move) + inter-procedural liveness under the abstract default configuration (constant folding of dominating option tests along every call chain, latch flags included); same-block pairing of brace edits; guard analysis of brace removal; who-may-move in the sorters",
             "All 135 sites that can change, create, delete or move a chunk are enumerated; with the mod_/cmt_ option families at their "
             "defaults 105 are shown unreachable from uncrustify_file on every call chain, the rest act on newline/blank chunks by a "
@@ -28,6 +39,11 @@ CLAIMS = {
             "diagnostic on every path to it; no error exit is reachable once output has started except two recorded findings. "
             "General memory safety/UB and wall-time bounds are not decided - they need a whole-program value analysis that is out "
             "of reach for this code base with the tools present.", "DESIGN.md section 4 C06"),
+    "C07": ("dominance of the disabled-region test over every parser call in parse_next; data-flow of every character read by parse_ignored into the chunk text; guard of the strip loop; exact shape of the raw output branch; effect census restricted to CT_IGNORED; must-reset of cpd.unc_off",
+            "While processing is off parse_ignored runs before every other parser and consumes no input before the test; it appends "
+            "every character up to the line end and types the chunk CT_IGNORED; such chunks are not stripped, are written by the raw "
+            "branch of add_text only, are named by no editing site, and the newline after them is left alone; the off state is "
+            "cleared per file. Holds for arbitrary region content. The blank-line structure around a region is not decided.", "DESIGN.md section 4 C07"),
     "C08": ("who-may-call for the character writers + guard analysis of add_char's CR/LF arms; extraction of the (option, census) -> terminator table at the tail of tokenize(); backward/forward must-pass-through pairing of every line-break event of the tokenizer with a census increment; CR/LF sibling-comparison check (thorough)",
             "Every output character is shown to pass add_char, where LF becomes exactly cpd.newline and CR is dropped; cpd.newline "
             "is assigned only by an exhaustive three-row table at the end of tokenize(); each of the tokenizer's line-break events "
@@ -101,6 +117,12 @@ CLAIMS = {
             "(pp_indent_with_tabs -1/0) every line-start column advance folds to allow_tabs=false and a tab after a blank is expanded - "
             "for all inputs and all other option values; the end-of-file newline policy reads only its own option family. Trailing "
             "blanks produced by column arithmetic inside comment continuation lines and alignment are not decided.", "DESIGN.md section 4 C17"),
+    "C18": ("dominance / ordering of the pass pipeline in uncrustify_file and of structure-changing calls relative to indent_text (effect summaries over the call graph)",
+            "NARROW claim: only the pipeline-order clause of the property is decided - levels and spacing are computed before "
+            "indent_text, every structure-changing call of the final loop is followed by the change-counter test that re-runs "
+            "indent_text, and nothing that changes structure runs between the last indent_text and output_text. The column "
+            "arithmetic of indent_text (the actual promise: equal columns per block, indent_columns per level) is NOT decided; "
+            "no sound static argument for it is in reach.", "DESIGN.md section 4 C18"),
     "C19": ("CFG dataflow (last-logged-rule x option provenance) over all do_space returns + who-may-call + switch-arm effect check",
             "Every return of do_space() (359) is checked: the option named by the last log_rule on each path is the option whose "
             "value (or a guard on it) decides the return; do_space is reachable only through ensure_force_space; the appliers' "
